@@ -76,16 +76,47 @@ MANIFEST = dict(
          "lists, single-record `items`; the statement (list-comprehension oracle, numeric fields compared as numbers; per-parent "
          "contributions for chained selections through get, item access, first and a repeated lookup) is executed on the "
          "implementation.",
-    note="unsuppressed verdicts of the evaluators: every form, chained selections included (no open finding).",
+    note="OPEN finding C06-g (literal values a condition cannot express): the predicate theorems carry the hypothesis PlainLit v "
+         "(no blanks, quotes, brackets, '/', '=', '~', '*', '?', '%', not true()/false()); for a value v outside it that occurs "
+         "in the data the engine misses the record or selects another one (counter-examples C06_literal_tilde_cex, "
+         "C06_literal_slash_cex, C06_literal_blank_cex - the [k=v] and the text() form, declared equivalent, differ -, "
+         "C06_literal_quoted_cex; '%41' selects the record whose k is 'A'). Such values ARE generated (10 % of the record lists draw "
+         "their values from ODD_VALS, with working neighbours '%4', '100%', 'a=b', 'a!b', ']', 'a[b', \"'a\", 'true'); a failing "
+         "case is suppressed only when the literal of its condition is in c06_g_class (percent escape, '~', '/', '][', '==', '!=', "
+         "'=', a blank at either end, the same quote at both ends, true()/false() in any case); every other failure is reported. The "
+         "model answers `unsupported` for a '%' in a condition (url-unquoting is not modelled): those cases are counted as "
+         "unsupported in stream xp.get/select, not compared - for them only the evaluator speaks. All other verdicts are "
+         "unsuppressed: every form, chained selections and list roots included.",
     design_ref="5/C06",
 )
 
 FIELDS = ["id", "k", "f", "name", "sku"]
 SVALS = ["1", "2", "A", "B", "ab", "x y", "b", "C++", "a+b", "C", "a b", "5'", "'tis", "O'B", "$N0t_F0uNd$"]
 NVALS = [1, 2, 0, 7, 9007199254740993, 9007199254740992, -3]
+# literal values that occur in the data but that a condition cannot express (finding C06-g), with neighbours that work:
+# percent escapes, operator characters, the path separators, blanks at the ends, a quote at both ends, true()/false()
+ODD_VALS = ["%41", "a%2Fb", "%4", "100%", "a~b", "~", "=", "a=b", "a!=b", "a==b", "a!b", "a/b", "/", "a][b", "]", "a[b",
+            " x", "x ", " ", "\tx", "'a'", '"a"', "'", '"', "'a", "true()", "False()", "true"]
+ODD_SHARE = 0.10
 
 
-def gen_records(rng, numeric=False, nested=False):
+def pct_hex(v):
+    import re
+
+    return re.search(r"%[0-9A-Fa-f]{2}", v) is not None
+
+
+def c06_g_class(v):
+    """finding C06-g: the literal text v cannot be written in a condition so that exactly the records with that value are selected"""
+    if not isinstance(v, str):
+        return False
+    return (pct_hex(v) or "~" in v or "/" in v or "][" in v or "==" in v or "!=" in v or v == "="
+            or v != v.strip()
+            or (len(v) >= 1 and v[0] in "'\"" and v[-1] == v[0])
+            or v.lower() in ("true()", "false()"))
+
+
+def gen_records(rng, numeric=False, nested=False, odd=False):
     n = rng.choice([0, 1, 2, 3, 4, 5])
     recs = []
     for _ in range(n):
@@ -93,6 +124,8 @@ def gen_records(rng, numeric=False, nested=False):
         for f in rng.sample(FIELDS, rng.choice([1, 2, 3, 4])):
             if numeric and rng.random() < 0.4:
                 r[f] = rng.choice(NVALS) if rng.random() < 0.97 else rng.choice([1.0, 2.5])
+            elif odd and rng.random() < 0.5:
+                r[f] = rng.choice(ODD_VALS)
             else:
                 r[f] = rng.choice(SVALS)
         if nested and rng.random() < 0.7:
@@ -224,7 +257,10 @@ def make_xp(P, form, k, f, vlit):
 
 
 def classify(c):
-    """known-finding class of a case (None = inside the scope where the property must hold); no open finding"""
+    """known-finding class of a case (None = inside the scope where the property must hold)"""
+    if c06_g_class(c.get("v")) or c06_g_class(c.get("v1")):
+        return "C06-g"
+    # a text field that holds a percent escape is decoded on the way too: the comparison is made with the decoded literal
     return None
 
 
@@ -437,17 +473,22 @@ def run(ctx):
     cases, chained = [], []
     for _ in range(ctx.budget(1200, 30000)):
         numeric = rng.random() < 0.25
-        recs = gen_records(rng, numeric=numeric)
+        odd = rng.random() < ODD_SHARE
+        recs = gen_records(rng, numeric=numeric, odd=odd)
         tree, pos = wrap_at_depth(rng, recs, rng.choice([0, 1, 2, 3]))
         P = spell_P(rng, tree, pos, rng.random() < 0.5)
         form = rng.choice(["star", "implicit", "eq", "eq", "text", "ne", "contains"])
         k, f = rng.choice(FIELDS), rng.choice(FIELDS)
         occurring = [r[k] for r in recs if k in r]
-        v = rng.choice(occurring) if occurring and rng.random() < 0.7 else rng.choice(SVALS + ["zz", ""])
+        v = rng.choice(occurring) if occurring and rng.random() < 0.7 else rng.choice((ODD_VALS if odd else SVALS) + ["zz", ""])
         q = rng.choice(["", "", "d", "s"])
         vs = str(v)
         if vs == "" and q == "":
             q = "s"
+        if odd and q == "" and (vs != vs.strip() or vs[:1] in ("'", '"')):
+            q = rng.choice("sd")     # a bare literal cannot carry blanks at its ends or start with a quote: written quoted
+        if odd and vs in ODD_VALS and ((q == "s" and "'" in vs) or (q == "d" and '"' in vs)):
+            q = "d" if q == "s" else "s"   # an odd value that holds a quote is written in the other quote
         if " " in vs and q == "" and rng.random() < 0.5:
             q = "d"
         xp = make_xp(P, form, k, f, lit(rng, vs, q))
@@ -519,6 +560,11 @@ def run(ctx):
     forms = {}
     for c in cases:
         forms[c["form"]] = forms.get(c["form"], 0) + 1
+    ctx.extra["C06-g"] = {
+        "conditions_with_a_literal_in_the_class": sum(1 for c in cases if c06_g_class(c["v"])),
+        "of_them_with_a_percent_escape(model: unsupported)": sum(1 for c in cases if pct_hex(c["v"])),
+        "odd_value_lists": sum(1 for c in cases if any(x in ODD_VALS for r in X.get_at(c["tree"], c["pos"]) for x in r.values() if isinstance(x, str))),
+    }
     ctx.extra["list_roots"] = {
         "select_root_is_the_record_list": sum(1 for c in cases if not c["pos"]),
         "select_list_root_deeper": sum(1 for c in cases if c["pos"] and isinstance(c["tree"], list)),
